@@ -282,7 +282,20 @@ func run(c Case, k *ev.Case) *ev.Failure {
 				pongs++
 			}
 		}
+		var cur *fakeTr
+		if len(w.incs) > 0 {
+			cur = w.incs[len(w.incs)-1]
+		}
 		w.mu.Unlock()
+		if cur != nil { // the live connection still has inbound messages the library has not read yet
+			cur.mu.Lock()
+			pending := len(cur.inbound) > 0 && !cur.broken && !cur.closed && !(cur.plan.FailReadAt > 0 && cur.reads >= cur.plan.FailReadAt)
+			cur.mu.Unlock()
+			if pending {
+				time.Sleep(200 * time.Microsecond)
+				continue
+			}
+		}
 		select {
 		case <-readDone:
 			deadline = time.Now()
